@@ -1521,7 +1521,21 @@ class Interp:
                 return self.truth(self.call_method(v, "__len__", []))
             return True
         if isinstance(v, LpConstraint):
-            raise Unsupported("truth value of an LP constraint")
+            # PuLP: a constraint is an affine expression (a dict of variables): it is truthy as soon as it mentions a
+            # variable - which is how `a <= x <= b` silently keeps only `x <= b`
+            names, seen, stack = set(), set(), [v.formula]
+            while stack:
+                t = stack.pop()
+                if t.get_id() in seen:
+                    continue
+                seen.add(t.get_id())
+                if z3.is_app(t) and t.decl().kind() == z3.Z3_OP_UNINTERPRETED:
+                    names.add(t.decl().name())
+                stack.extend(t.children())
+            lp_names = {str(getattr(x, "term", x)) for x in self.ctx.lp_vars}
+            if any(n.startswith("V_") or n in lp_names for n in names):
+                return True
+            raise Unsupported("truth value of an LP constraint without variables")
         if isinstance(v, Opaque):
             raise Unsupported(f"truth value of {v!r}")
         return True
